@@ -380,3 +380,111 @@ func init() {
 		Rule:   "one state per completed symbolic path",
 	}
 }
+
+var killEmacs = []string{"kill-line", "backward-kill-line", "unix-line-discard", "kill-whole-line", "kill-buffer", "kill-word",
+	"backward-kill-word", "unix-word-rubout", "kill-region", "shell-kill-word", "shell-backward-kill-word"}
+var killVi = []string{"vi-kill-eol", "vi-rubout", "vi-delete", "vi-kill-line", "vi-unix-word-rubout", "backward-kill-word"}
+
+func init() {
+	checks["C16"] = &CheckDef{
+		ID: "C16",
+		Jobs: func(tier string, p *Program) []*Job {
+			var jobs []*Job
+			ns := []int{1, 2, 3}
+			args := []string{"", "2"}
+			if tier == "thorough" {
+				ns = []int{1, 2, 3, 4}
+				args = []string{"", "2", "-"}
+			}
+			add := func(mode, cmd string, n int, arg, alpha string) {
+				kv := []string{"mode", mode, "cmd", cmd, "n", itoa(n), "alpha", alpha}
+				if arg != "" {
+					kv = append(kv, "arg", arg)
+				}
+				j := mkJob(".ZZ_C16_KillYank", shellSetup, kv...)
+				j.Stubs = paintStubs
+				jobs = append(jobs, j)
+			}
+			for _, n := range ns {
+				for _, cmd := range killEmacs {
+					for _, arg := range args {
+						if arg != "" && n < 2 {
+							continue
+						}
+						add("emacs", cmd, n, arg, "ascii")
+					}
+					if n <= 2 {
+						add("emacs", cmd, n, "", "text")
+					}
+				}
+				for _, cmd := range killVi {
+					for _, arg := range args {
+						if arg == "-" || (arg != "" && n < 2) {
+							continue
+						}
+						add("vi-command", cmd, n, arg, "ascii")
+					}
+				}
+			}
+			return jobs
+		},
+		Assumptions: append([]string{
+			"pre-state: buffer of n symbolic runes (ASCII incl. controls, blanks, quotes, newline; or Latin-1 + caseless runes of any UTF-8 length), cursor (and mark for kill-region) anywhere; the kill command and then yank / vi-put-before are typed through their key bindings in a real Readline call",
+			"when a kill command removes nothing the statement says nothing and nothing is asserted",
+		}, stepAssumptions[1:]...),
+		Stubs:  []string{"tty ioctls", "stdin = zzverif.Script", "stdout discarded"},
+		Bounds: map[string]string{"quick": "n <= 3 (ASCII), n <= 2 (multi-byte alphabet), numeric argument in {none, 2}", "thorough": "n <= 4, argument also '-'"},
+		Rule:   "one state per completed symbolic path",
+		IgnoreKinds: []string{"panic", "hang", "deadlock", "spin"},
+	}
+}
+
+var viMotions = []string{"h", "l", "w", "b", "e", "W", "B", "E", "0", "$", "^", "f?", "F?", "t?", "T?", "%", "ge", "gE",
+	"iw", "aw", "iW", "aW", "i\"", "a\"", "i'", "a'", "i(", "a(", "i[", "a[", "i{", "a{", "d", "j", "k", "|"}
+
+func init() {
+	checks["C17"] = &CheckDef{
+		ID: "C17",
+		Jobs: func(tier string, p *Program) []*Job {
+			var jobs []*Job
+			ns := []int{1, 2, 3}
+			if tier == "thorough" {
+				ns = []int{1, 2, 3, 4}
+			}
+			for _, n := range ns {
+				for _, mo := range viMotions {
+					for _, count := range []string{"", "2"} {
+						if count != "" && (n < 3 || (tier != "thorough" && len(mo) > 1)) {
+							continue
+						}
+						kv := []string{"motion", mo, "n", itoa(n), "alpha", "ascii"}
+						if mo == "d" {
+							kv[1] = "d"
+						}
+						if count != "" {
+							kv = append(kv, "count", count)
+						}
+						j := mkJob(".ZZ_C17_DeleteYank", ".ZZSetup_TwoShells", kv...)
+						j.Stubs = paintStubs
+						j.Reach = []string{"both-ran"}
+						jobs = append(jobs, j)
+					}
+					if n == 2 {
+						j := mkJob(".ZZ_C17_DeleteYank", ".ZZSetup_TwoShells", "motion", mo, "n", itoa(n), "alpha", "text")
+						j.Stubs = paintStubs
+						jobs = append(jobs, j)
+					}
+				}
+			}
+			return jobs
+		},
+		Assumptions: append([]string{
+			"two independent shells start from the same symbolic buffer/cursor in vi command mode; one gets d<count><motion>, the other y<count><motion>; the 'y' harness types the motion 'd' as the doubled operator (dd vs yd is replaced by dd vs yy)",
+			"f/F/t/T take a symbolic printable ASCII target character",
+		}, stepAssumptions[1:]...),
+		Stubs:  []string{"tty ioctls", "stdin = zzverif.Script", "stdout discarded"},
+		Bounds: map[string]string{"quick": "buffer n <= 3 ASCII (n = 2 over the multi-byte alphabet), count in {none, 2 (single-key motions)}", "thorough": "n <= 4, count 2 for every motion"},
+		Rule:   "one state per completed symbolic path (both operators run inside one path)",
+		IgnoreKinds: []string{"panic", "hang", "deadlock", "spin"},
+	}
+}
